@@ -313,6 +313,7 @@ def _write_result_batch(
     *,
     shm: ShmSegment | None = None,
     prebuilt: pa.RecordBatch | None = None,
+    max_external_bytes: int | None = None,
 ) -> int:
     """Write a unary result batch to an already-open IPC stream writer.
 
@@ -325,6 +326,10 @@ def _write_result_batch(
         prebuilt: Optional pre-built batch; when supplied, ``value`` is
             ignored.  Lets callers (HTTP unary path) construct the
             batch eagerly to pre-flight the external-channel cap.
+        max_external_bytes: External-storage budget left for this response
+            (``None`` = unbounded).  An upload that would exceed it raises
+            :class:`~vgi_rpc.external.ExternalBudgetExceededError` before
+            anything is uploaded or written.
 
     Returns:
         Bytes uploaded to external storage during this call.  ``0`` when no
@@ -343,7 +348,9 @@ def _write_result_batch(
             writer.write_batch(batch, custom_metadata=cm)
             return 0
     elif external_config is not None:
-        batch, cm, external_bytes = maybe_externalize_batch(batch, None, external_config)
+        batch, cm, external_bytes = maybe_externalize_batch(
+            batch, None, external_config, max_external_bytes=max_external_bytes
+        )
         if cm is not None:
             if wire_response_logger.isEnabledFor(logging.DEBUG):
                 wire_response_logger.debug("Write result batch: %s, route=external", fmt_batch(batch))
@@ -553,6 +560,7 @@ def _flush_collector(
     external_config: ExternalLocationConfig | None = None,
     *,
     shm: ShmSegment | None = None,
+    max_external_bytes: int | None = None,
 ) -> int:
     """Write all accumulated batches from an OutputCollector to an IPC stream writer.
 
@@ -562,6 +570,10 @@ def _flush_collector(
         external_config: External-location config for offloading large
             batches, or ``None`` to keep everything inline.
         shm: Shared-memory segment for zero-copy transfer, or ``None``.
+        max_external_bytes: External-storage budget left for this response
+            (``None`` = unbounded).  An upload that would exceed it raises
+            :class:`~vgi_rpc.external.ExternalBudgetExceededError` before
+            anything is uploaded or written.
 
     Returns:
         Bytes of payload uploaded to external storage during this flush.
@@ -591,7 +603,9 @@ def _flush_collector(
                 writer.write_batch(batch)
         return 0
     if external_config is not None:
-        batch_list, external_bytes = maybe_externalize_collector(out, external_config)
+        batch_list, external_bytes = maybe_externalize_collector(
+            out, external_config, max_external_bytes=max_external_bytes
+        )
         for batch, cm in batch_list:
             if cm is not None:
                 writer.write_batch(batch, custom_metadata=cm)
